@@ -677,6 +677,11 @@ func Rebuild(t *Term, args []*Term) *Term {
 		if len(args) >= 1 {
 			return DynCall(args[0], args[1:], t.Pos)
 		}
+	case "deref":
+		// the location a pointer parameter stands for, once the caller's &x is substituted, is x
+		if len(args) == 1 && args[0].Op == OAddr && len(args[0].Args) == 1 {
+			return args[0].Args[0]
+		}
 	case OUn:
 		if t.Str == "!" && len(args) == 1 {
 			return NotCond(args[0]) // !(a == b) after a substitution is a != b
